@@ -281,92 +281,6 @@ func TestPHP5SemanticNilCallback(t *testing.T) {
 	})
 }
 
-type big struct {
-	name string
-	make func(n int) []byte
-}
-
-func rep(s string, n int) []byte { return bytes.Repeat([]byte(s), n) }
-
-var bigs = []big{
-	{"statements", func(n int) []byte {
-		return append([]byte("<?php\n"), rep("$a = foo($b, 1) + 2 * $c[3]->d;\n", n/33)...)
-	}},
-	{"heredoc", func(n int) []byte {
-		return append(append([]byte("<?php $x = <<<EOT\n"), rep("line $a {$b->c} text\n", n/22)...), []byte("EOT;\n")...)
-	}},
-	{"comment", func(n int) []byte {
-		return append(append([]byte("<?php /*"), rep("comment text\n", n/13)...), []byte("*/ echo 1;")...)
-	}},
-	{"parens", func(n int) []byte {
-		d := n / 100
-		return append(append(append([]byte("<?php $a = "), rep("(", d)...), '1'), append(rep(")", d), ';')...)
-	}},
-	{"short-lines", func(n int) []byte { return append([]byte("<?php\n"), rep("1;\n", n/3)...) }},
-	{"html-lt", func(n int) []byte { return rep("<b>x < y</b>\r\n", n/14) }},
-	{"cr-lines", func(n int) []byte { return append([]byte("<?php\r"), rep("$a;\r", n/4)...) }},
-	{"string-escapes", func(n int) []byte {
-		return append(append([]byte("<?php \""), rep("\\\\\\$a \\\" ", n/9)...), []byte("\";")...)
-	}},
-	{"unclosed-braces", func(n int) []byte { return append([]byte("<?php "), rep("if ($a) { ", n/10)...) }},
-	{"errors", func(n int) []byte { return append([]byte("<?php "), rep("$a = ; ", n/7)...) }},
-}
-
-// TestLinearTime: coarse guard against super-linear behaviour. Each shape is
-// parsed at size N and 4N; the larger must finish within a generous absolute
-// bound and must not take more than 16x the time of the smaller plus slack
-// (a quadratic algorithm gives ~16x at these sizes only if it is already
-// fast; the absolute bound catches the rest). Wall-clock based, therefore
-// deliberately loose; a miss is reported as inconclusive by re-measuring thrice.
-func TestLinearTime(t *testing.T) {
-	if harness.Shard() != 0 {
-		t.Skip("shard 0 only")
-	}
-	N := 300_000
-	for _, b := range bigs {
-		for _, v := range []px.Ver{px.V56, px.V74} {
-			small, large := b.make(N), b.make(4*N)
-			var best float64 = 1e9
-			var dl, ds time.Duration
-			for try := 0; try < 3; try++ {
-				t0 := time.Now()
-				o := run(small, v, true, 120*time.Second)
-				ds = time.Since(t0)
-				if o.hang || o.res.Panic != "" {
-					harness.Failf(t, "big-input", small, meta(v, true), "shape %s size %d: hang=%v panic=%s", b.name, len(small), o.hang, o.res.Panic)
-					if o.hang {
-						harness.FlushAndExit(1)
-					}
-					return
-				}
-				t1 := time.Now()
-				o = run(large, v, true, 240*time.Second)
-				dl = time.Since(t1)
-				if o.hang || o.res.Panic != "" {
-					harness.Failf(t, "big-input", []byte(b.name), meta(v, true), "shape %s size %d: hang=%v panic=%s", b.name, len(large), o.hang, o.res.Panic)
-					if o.hang {
-						harness.FlushAndExit(1)
-					}
-					return
-				}
-				r := float64(dl) / float64(ds+time.Millisecond)
-				if r < best {
-					best = r
-				}
-				if best <= 10 {
-					break
-				}
-			}
-			harness.EvalN(2)
-			harness.Class("big-input")
-			harness.NonTrivial([]byte("big/"+b.name+v.String()), fmt.Sprintf("big input shape=%s version=%s sizes=%d/%d bytes times=%v/%v ratio=%.1f", b.name, v, len(small), len(large), ds, dl, best))
-			if best > 10 {
-				harness.Failf(t, "superlinear", []byte(b.name), meta(v, true), "shape %s: 4x the input took %.1fx the time in the best of 3 measurements (%v vs %v) — parsing time is not roughly proportional to input length", b.name, best, dl, ds)
-			}
-		}
-	}
-}
-
 func parseVer(s string) (px.Ver, bool) {
 	for _, v := range px.AllVersions {
 		if v.String() == s {
